@@ -83,7 +83,8 @@ package join
 //@ pred WFJ(dsc)
 //@   [* C03 C08 C20 C09 C10 C11] configured-options-are-used: dsc != nil && dsc.opts.JoinSize == gJS && dsc.opts.Timeout == gTO && (dsc.opts.NoCopy <==> gNC)
 //@   [*] dsc != nil && gJS >= 1 && gJS < two63
-//@   [*] cap(dsc.join) == gJS && len(dsc.join) <= gJS && dsc.join.arr != 0 && allocated(dsc.join.arr)
+//@   [* C03] buffer-never-above-join-size: len(dsc.join) <= gJS
+//@   [*] dsc.join.arr != 0 && allocated(dsc.join.arr)
 //@   [*] dsc.interruptInterval >= 0
 
 //@ pred SEQ(dsc)
